@@ -3,6 +3,7 @@ package checks
 import (
 	"errors"
 	"fmt"
+	"sort"
 	"strings"
 
 	"github.com/huderlem/poryscript/parser"
@@ -349,6 +350,13 @@ func runC20(ctx *h.Ctx) int {
 	ctx.RunCases("injected-violations", ctx.N(9600, 480000), func(k *h.Case) {
 		g := spec.NewGen(k.R, prof)
 		prog := g.FullProgram(1 + k.R.IntN(4))
+		if k.R.IntN(5) == 0 {
+			// a switch given with an empty value (-s KEY=): selects the '_' cases
+			if keys := sortedStringKeys(prog.Switches); len(keys) > 0 {
+				prog.Switches[keys[k.R.IntN(len(keys))]] = ""
+			}
+			k.Count("files_with_empty_switch_value", 1)
+		}
 		base := h.Compile(spec.Source(prog), optsOf(prog, true))
 		k.Count("evaluations", 1)
 		if !base.OK() {
@@ -402,4 +410,13 @@ func runC20(ctx *h.Ctx) int {
 		"valid generated files with exactly one injected violation at a random position under scrambled layouts: break outside loop/switch (incl. inline map scripts, poryswitch cases, after a closed loop), continue outside a loop (incl. in a switch outside loops), continue not last in its block, duplicate case value (literal and via a constant), second default, redefined constant, text/movement statement named like a generated label, label statement equal to a generated sub-label of its script / the script's own name / a text label (anywhere, incl. unreachable code). Oracle: the result is an error (never output), it is a located error, and its start line lies inside the offending construct's source line range (either occurrence for clashes between two definitions). distinct = (kind, line class, file size)",
 		ctx.N(500, 5000),
 		[]string{"the base program (before injection) compiles; the injected construct is the only violation"})
+}
+
+func sortedStringKeys(m map[string]string) []string {
+	out := make([]string, 0, len(m))
+	for k := range m {
+		out = append(out, k)
+	}
+	sort.Strings(out)
+	return out
 }
